@@ -32,7 +32,11 @@ claim("C10",
       "Static, all paths: RRSIG.Verify's success only from the verifier's verdict and only after all twelve listed pre-checks (edge dominance on the SSA CFG with field-path-exact guard matching), digest input order, rrsigWireFmt conformance and both fill sites, rawSignatureData writes only to copies / substitutes OrigTtl and canonical owner on every path / lower-cases every embedded name of every RFC 4034 s.6.2 type / sorts then de-duplicates / orders by RDATA, RRSIG.Sign field filling, RSA size limits. The equality of the signed octet string with RFC 4034 for all inputs and the cryptographic facts are not decided.",
       STATIC_NOTE, "guarded-success (edge dominance) on SSA; must-pass; type-switch exhaustiveness against RFC list and struct tags")
 
+claim("C11",
+      "Static, all paths: tsigVerify's success only after strip, digest-input construction, the provider's verdict on exactly those values and then the 64-bit fudge window; HMAC provider accepts only on hmac.Equal, algorithm table, key lookup by owner name; RFC 8945 layouts of the three digest-input structs, their packers and fill sites; digest-input composition (original ID, timers-only selection, request MAC always covered when given); generation framing (TSIG stripped before packing, appended last, ARCOUNT+1, no MAC for BADKEY/BADSIG); stripTsig's cut offset and ARCOUNT-1. Equality with the RFC 8945 HMAC for all inputs, single-bit alteration facts and envelope-chain histories are not decided.",
+      STATIC_NOTE, "guarded-success (edge dominance) on SSA; side-struct conformance; byte-access provenance; buffer composition classes")
+
 _pending = "rules for this property are designed (DESIGN.md §4) but not implemented yet; not claimed until they run"
-for p in ["C02","C03","C05","C06","C07","C09","C11","C12","C15","C16","C18"]:
+for p in ["C02","C03","C05","C06","C07","C09","C12","C15","C16","C18"]:
     na(p, _pending)
 na("C19", "every clause is an equality between index arithmetic on a runtime string and its label sequence; no pairing/ownership/ordering/table structure to decide statically (DESIGN.md §8)")
